@@ -420,6 +420,9 @@ FLAG_EXEMPT = {
 
 
 def run(ctx):
+    from . import edges
+    edges.rule_threshold_siblings(ctx, 'R01.13')     # one quantity, one literal, one line: SABA corrector types are recognised alike at every site
+    edges.rule_sentinel_before_use(ctx, 'R10.12')    # defaults are substituted before the member is read
     from . import c02
     c02.rule_dimensions(ctx)     # R02.4: every force term carries G exactly once (a method whose error does not shrink with dt when G != 1)
     from . import c10
